@@ -21,7 +21,7 @@ def check(run):
         F = run.facts(cfg)
         # helpers this property stands on (rule sets owned by other properties, see common.deps)
         from common import deps as _deps
-        _deps(run, F, 'drivers', 'isnone', 'accessors', 'agg_gates', 'casts')
+        _deps(run, F, 'drivers', 'isnone', 'accessors', 'agg_gates', 'casts', 'wrappers', 'fast_paths')
         ks = [k for k in find_kernels(F) if k.fn.file.endswith(('tea-rolling/src/binary.rs',
                                                                 'tea-rolling/src/reg.rs'))]
         run.floor('ACC', 'rolling kernels in binary.rs + reg.rs', len(ks), 13)
